@@ -6,6 +6,7 @@ import (
 	"fmt"
 	"go/token"
 	"go/types"
+	"regexp"
 	"sort"
 	"strings"
 	"sync"
@@ -65,6 +66,7 @@ type FnExec struct {
 	abstracted   []string
 	name         string
 	usedGhosts   map[int]bool
+	axioms       []lazyAxiom
 	implGhost    map[string]Binding
 	guardOrd     map[ssa.Instruction]int
 	asyncCall    bool            // applying a contract at a go statement
@@ -237,6 +239,27 @@ const basePrelude = `(set-option :produce-models true)
 `
 
 // buildQuery renders a standalone SMT-LIB2 script for one obligation.
+type lazyAxiom struct {
+	name string
+	term Term
+	syms []string
+}
+
+var specSymRe = regexp.MustCompile(`\|sf\.[^|]*\||\|f32\.[a-z_]+\|`)
+
+// specSymbols: the spec-function / float symbols an axiom speaks about.
+func specSymbols(s string) []string {
+	seen := map[string]bool{}
+	var out []string
+	for _, m := range specSymRe.FindAllString(s, -1) {
+		if !seen[m] {
+			seen[m] = true
+			out = append(out, m)
+		}
+	}
+	return out
+}
+
 func (fe *FnExec) buildQuery(st *State, goal Term, cover bool, header string) string {
 	var b strings.Builder
 	b.WriteString("; " + strings.ReplaceAll(header, "\n", "\n; ") + "\n")
@@ -245,20 +268,47 @@ func (fe *FnExec) buildQuery(st *State, goal Term, cover bool, header string) st
 		b.WriteString(l)
 		b.WriteByte('\n')
 	}
+	var body strings.Builder
 	for _, n := range st.ctx.lines() {
 		if n.decl != "" {
-			b.WriteString(n.decl)
-			b.WriteByte('\n')
+			body.WriteString(n.decl)
+			body.WriteByte('\n')
 		} else {
 			if n.note != "" {
-				b.WriteString("; " + n.note + "\n")
+				body.WriteString("; " + n.note + "\n")
 			}
-			b.WriteString("(assert " + n.assume.S + ")\n")
+			body.WriteString("(assert " + n.assume.S + ")\n")
 		}
 	}
 	if !cover {
-		b.WriteString("; goal (negated)\n(assert (not " + goal.S + "))\n")
+		body.WriteString("; goal (negated)\n(assert (not " + goal.S + "))\n")
 	}
+	// axioms about symbols this query mentions (closed under the symbols the
+	// selected axioms themselves bring in)
+	text := body.String()
+	used := map[int]bool{}
+	for changed := true; changed; {
+		changed = false
+		for i, ax := range fe.axioms {
+			if used[i] {
+				continue
+			}
+			for _, sym := range ax.syms {
+				if strings.Contains(text, sym) {
+					used[i] = true
+					changed = true
+					text += ax.term.S
+					break
+				}
+			}
+		}
+	}
+	for i, ax := range fe.axioms {
+		if used[i] {
+			b.WriteString("; axiom " + ax.name + "\n(assert " + ax.term.S + ")\n")
+		}
+	}
+	b.WriteString(body.String())
 	b.WriteString("(check-sat)\n")
 	if !cover && len(fe.watch) > 0 {
 		b.WriteString("(get-value (" + strings.Join(fe.watch, " ") + "))\n")
